@@ -203,12 +203,17 @@ def _execute_bytes(job):
         os.chdir(d)
         ref = reformat_text(PROBE, **kwargs(u))
         assert reformat_text(ref, **kwargs(u)) == ref or True
-        data = ref.replace("\n", eol).encode()
+        # "bom": the file starts with a UTF-8 byte order mark (a Windows editor's habit): whatever the formatter makes of it, every entry
+        # point makes the same of it as the text API does of the decoded text
+        data = (b"\xef\xbb\xbf" + ref.encode()) if eol == "bom" else ref.replace("\n", eol).encode()
         open("a.md", "wb").write(data)
         fl = flags(u)
         rc, out = 0, None
         if ep == "cli_file_stdout":
             rc, so, _ = _cli_subproc(fl + ["a.md"], "", d)
+            out = so.encode()
+        elif ep == "cli_stdin_stdout":
+            rc, so, _ = _cli_inproc(fl + ["-"], data.decode())
             out = so.encode()
         elif ep == "cli_file_inplace_nobackup":
             rc, _, _ = _cli_inproc(fl + ["--inplace", "--nobackup", "a.md"], "")
@@ -350,14 +355,15 @@ def run(tier: str) -> int:
     # ---- byte-level family: already-formatted files with CRLF / LF line ends ----
     upoints = sorted({json.dumps(p["u"], sort_keys=True) for p in points if not p["ep"].startswith(("err_", "cli_auto"))})
     bjobs = [(ep, json.loads(u), eol) for k, u in enumerate(upoints) if (k + chk.seed) % (6 if tier == "quick" else 1) == 0
-             for ep in ("cli_file_inplace", "cli_file_inplace_nobackup", "api_file_inplace", "api_files_inplace") for eol in ("\r\n", "\n")]
+             for ep in ("cli_file_inplace", "cli_file_inplace_nobackup", "api_file_inplace", "api_files_inplace") for eol in ("\r\n", "\n", "bom")]
+    bjobs += [(ep, json.loads(u), "bom") for k, u in enumerate(upoints) if (k + chk.seed) % (6 if tier == "quick" else 1) == 0 for ep in ("cli_file_stdout", "cli_stdin_stdout")]
     btr = []
     for tid2, (job, r) in enumerate(zip(bjobs, pmap(_execute_bytes, bjobs, chunksize=10)), 10 ** 6):
         chk.evaluations += 1
         chk.nontriv(("bytes", job[0], json.dumps(job[1], sort_keys=True), job[2]))
         btr.append(dict(id=tid2, ep=job[0], u=job[1], ref=r["ref"], out=r["out"], rc=int(r["rc"]), fs_ok=True, side=True))
         metas[tid2] = dict(ep=job[0], u=job[1], expected=job[1], subprocess=False, rc=r["rc"], stderr="", changed=[], flags=flags(job[1]),
-                           output_head=r["head"], family="already formatted file stored with " + ("CRLF" if job[2] == "\r\n" else "LF") + " line ends")
+                           output_head=r["head"], family="already formatted file stored with " + {"\r\n": "CRLF line ends", "\n": "LF line ends", "bom": "a leading UTF-8 BOM"}[job[2]])
     brep, g2, d2 = tlc.validate_traces("EntryTrace", btr, cfg=tlc.cfg_text(spec="TraceSpec", constants=dict(Widths=widths, Mutant="none", DoDump=False),
                                                                           invariants=["Report"]))
     chk.states += d2
